@@ -25,12 +25,6 @@ Definition run_clean (v : variant) (fail_at openable : nat -> bool) (pl : plan) 
 Definition C08_full : Prop :=
   forall fail_at openable pl sh i0 o0 e0, std_ok (tab sh) i0 o0 e0 -> run_clean v0 fail_at openable pl sh.
 
-(* ---------------- the one class that remains ---------------- *)
-(* a builtin alone on its line with `1>&2` followed by another redirection of descriptor 1
-   (`alias 1>&2 > f`): the look-ahead call in _get_std_fds opens f and drops the descriptor *)
-Definition Known_C08 (pl : plan) : bool :=
-  is_single_builtin pl && existsb (fun st => lookahead_leak (s_redirs st)) (p_stages pl).
-
 (* the stage classes of the variants (all empty for v0, see Known_C08_child_v0) *)
 Definition Known_C08_child (v : variant) (capture last : bool) (st : stage) : bool :=
   negb (clean v capture last (s_redirs st)).
@@ -50,10 +44,11 @@ Proof.
   induction l as [|x r IH]; [reflexivity|]. cbn [existsb]. rewrite IH.
   destruct (f x), c, (existsb f r); reflexivity.
 Qed.
-Lemma Known_C08_child_classes : forall v capture last st,
+Lemma Known_C08_child_classes : forall v capture last st, v_capfirst v = false ->
   Known_C08_child v capture last st = known_dupleak v last capture st || known_capredir v last capture st.
 Proof.
-  intros. unfold Known_C08_child, clean, known_dupleak, known_capredir, dirty.
+  intros v capture last st VC. unfold Known_C08_child, clean, known_dupleak, known_capredir, dirty.
+  rewrite VC. cbn [negb]. rewrite !andb_true_r.
   rewrite has12_file.
   rewrite (existsb_split _ (fun r => is_dup21 r && negb (negb last)) is_dup12 (negb capture) (negb last || negb capture)).
   rewrite (existsb_andc _ is_dup21 (negb (negb last))).
@@ -63,7 +58,15 @@ Qed.
 
 Lemma Known_C08_child_v0 : forall capture last st, Known_C08_child v0 capture last st = false.
 Proof.
-  intros. unfold Known_C08_child, clean, dirty, v0. cbn [v_dupclose v_capclose negb andb].
+  intros. unfold Known_C08_child, clean, dirty, v0. cbn [v_dupclose v_capclose v_capfirst negb andb].
+  rewrite !andb_false_r. reflexivity.
+Qed.
+
+(* the proposed notes/C04-fix-4.patch keeps the child class empty (C08_children_variants applies) *)
+Lemma Known_C08_child_fix4 : forall capture last st,
+  Known_C08_child (mkv true true true true true true true) capture last st = false.
+Proof.
+  intros. unfold Known_C08_child, clean, dirty. cbn [v_dupclose v_capclose v_capfirst negb andb].
   rewrite !andb_false_r. reflexivity.
 Qed.
 
@@ -132,31 +135,17 @@ Check C08_children : forall fail_at openable pl sh i0 o0 e0,
   res_error r = false ->
   kids_ok (fun _ _ k => kid_clean (tab sh) k) 0 (p_stages pl) (res_kids r).
 
-(* a builtin that runs in the shell itself, captured or not, with any redirection list outside the
-   look-ahead class, unopenable targets included: the shell's table is what it was *)
+(* a builtin that runs in the shell itself, captured or not, with ANY redirection list, unopenable targets
+   included: the shell's table is what it was (since /repo c05c052 no list is excluded) *)
 Theorem C08_builtin : forall fail_at openable pl sh st o1 c1 o2 c2,
   p_stages pl = [st] -> s_kind st = KBuiltin ->
-  lookahead_leak (s_redirs st) = false ->
   lookup (tab sh) 1 = Some (o1, c1) -> lookup (tab sh) 2 = Some (o2, c2) ->
   teq_tab (res_shell (run_pipeline v0 fail_at openable pl sh)) (tab sh).
-Proof. intros. eapply builtin_restored; eauto. Qed.
+Proof. intros. eapply (builtin_restored v0); eauto. Qed.
 Check C08_builtin : forall fail_at openable pl sh st o1 c1 o2 c2,
   p_stages pl = [st] -> s_kind st = KBuiltin ->
-  lookahead_leak (s_redirs st) = false ->
   lookup (tab sh) 1 = Some (o1, c1) -> lookup (tab sh) 2 = Some (o2, c2) ->
   teq_tab (res_shell (run_pipeline v0 fail_at openable pl sh)) (tab sh).
-
-(* PROPOSED notes/C04-fix-3.patch (_get_std_fds as a left-to-right fold): no redirection list is excluded any more *)
-Definition v_fix3 := mkv true true true true true true false.
-Theorem C08_builtin_fix3 : forall fail_at openable pl sh st o1 c1 o2 c2,
-  p_stages pl = [st] -> s_kind st = KBuiltin ->
-  lookup (tab sh) 1 = Some (o1, c1) -> lookup (tab sh) 2 = Some (o2, c2) ->
-  teq_tab (res_shell (run_pipeline v_fix3 fail_at openable pl sh)) (tab sh).
-Proof. intros. eapply (builtin_restored v_fix3); eauto. Qed.
-Example C08_lookahead_fix3 :
-  map (obj_at (tab (res_shell (run_pipeline v_fix3 nf yes (mkplan [mks FNone [mkr F1 false TAmp2; mkr F1 false (TFile 5)] KBuiltin [true]] false) sh0)))) [3; 4; 5]
-  = [None; None; None].
-Proof. vm_compute. reflexivity. Qed.
 
 (* descriptor exhaustion in the up-front loop: error, nothing forked, everything released
    (the capture pipes' failure points are covered by C08_shell: table restored) *)
@@ -200,47 +189,35 @@ Example C08_capture_second_pipe_fails :
   rev (tr (res_shell r2)) = [EPipe 3 4; EPipe 5 6; EPipeFail; EClose 5 true; EClose 6 true; EClose 3 true; EClose 4 true].
 Proof. vm_compute. repeat split; reflexivity. Qed.
 
-(* the full statement outside the one remaining class *)
-Theorem C08_partial : forall fail_at openable pl sh i0 o0 e0,
-  std_ok (tab sh) i0 o0 e0 -> Known_C08 pl = false -> run_clean v0 fail_at openable pl sh.
+(* the full statement: no class is left *)
+Theorem C08_holds : C08_full.
 Proof.
-  intros fail_at openable pl sh i0 o0 e0 SO K. unfold run_clean. cbv zeta.
+  intros fail_at openable pl sh i0 o0 e0 SO. unfold run_clean. cbv zeta.
   destruct (is_single_builtin pl) eqn:SB.
   - destruct (single_builtin_shape pl SB) as (st & ES & EK).
-    unfold Known_C08 in K. rewrite SB, ES in K. cbn [andb existsb] in K. rewrite orb_false_r in K.
     destruct SO as (_ & S1 & S2). split.
-    + eapply builtin_restored; eauto.
+    + eapply (builtin_restored v0); eauto.
     + intros _. rewrite (builtin_no_kids v0 fail_at openable pl sh SB). constructor.
   - split.
     + apply (proj1 (C08_shell fail_at openable pl sh SB)).
     + intro NE. eapply kids_ok_Forall. apply (C08_children fail_at openable pl sh i0 o0 e0 SO SB NE).
 Qed.
-Check C08_partial : forall fail_at openable pl sh i0 o0 e0,
-  std_ok (tab sh) i0 o0 e0 -> Known_C08 pl = false -> run_clean v0 fail_at openable pl sh.
+Check C08_holds : forall fail_at openable pl sh i0 o0 e0,
+  std_ok (tab sh) i0 o0 e0 -> run_clean v0 fail_at openable pl sh.
 
-(* ---------------- the remaining refutation ---------------- *)
 Definition kid0 (r : result) := hd (mkkid 0 sh0 OExec) (res_kids r).
 Definition p_dup := mkplan [mks FNone [mkr F2 false TAmp1] KExt []] false.
 Definition p_bcap := mkplan [mks FNone [] KBuiltin [true]] true.
 Definition p_capredir := mkplan [mks FNone [mkr F1 false (TFile 5)] KExt []] true.
 Definition p_look := mkplan [mks FNone [mkr F1 false TAmp2; mkr F1 false (TFile 5)] KBuiltin [true]] false.
-(* alias 1>&2 > f : the look-ahead call of _get_std_fds opens f and never closes it *)
-Example C08_refuted_builtin_lookahead :
-  Known_C08 p_look = true /\
-  lookup (tab (res_shell (run_pipeline v0 nf yes p_look sh0))) 3 = Some (OFile 5 MTrunc, true).
-Proof. vm_compute. split; reflexivity. Qed.
-Theorem C08_refuted : ~ C08_full.
-Proof.
-  intro H. destruct (H nf yes p_look sh0 (OInh 0) (OInh 1) (OInh 2)) as (T & _); [vm_compute; auto|].
-  specialize (T 3). vm_compute in T. discriminate.
-Qed.
 
 (* ---------------- regression: what each repair bought (the code BEFORE the commit leaks) ---------------- *)
-Definition v_before_8dc92a8 := mkv false true true true true false false.
-Definition v_before_07e8792 := mkv true false true true true false false.
-Definition v_before_219c117 := mkv true true false true true false false.
-Definition v_before_3c1f8de := mkv true true true false true false false.
-Definition v_before_d4ac685 := mkv true true true true false false false.
+Definition v_before_8dc92a8 := mkv false true true true true true false.
+Definition v_before_07e8792 := mkv true false true true true true false.
+Definition v_before_219c117 := mkv true true false true true true false.
+Definition v_before_3c1f8de := mkv true true true false true true false.
+Definition v_before_d4ac685 := mkv true true true true false true false.
+Definition v_before_c05c052 := mkv true true true true true false false.
 Definition bunop_plan := mkplan [mks FNone [mkr F1 false (TFile 5)] KBuiltin [true]] false.
 Example C08_regression :
   (* prog 2>&1 : the dup()ed descriptor 3 stayed open in prog *)
@@ -258,6 +235,9 @@ Example C08_regression :
   map (obj_at (tab (res_shell (run_pipeline v_before_3c1f8de (fun k => Nat.eqb k 1) yes (mkplan [ext; ext] true) sh0)))) [3; 4]
   = [Some (OPipeR (PStage 0)); Some (OPipeW (PStage 0))] /\
   map (obj_at (tab (res_shell (run_pipeline v0 (fun k => Nat.eqb k 1) yes (mkplan [ext; ext] true) sh0)))) [3; 4] = [None; None] /\
+  (* alias 1>&2 > f : the look-ahead call of the old _get_std_fds opened f and dropped the descriptor *)
+  lookup (tab (res_shell (run_pipeline v_before_c05c052 nf yes p_look sh0))) 3 = Some (OFile 5 MTrunc, true) /\
+  map (obj_at (tab (res_shell (run_pipeline v0 nf yes p_look sh0)))) [3; 4; 5] = [None; None; None] /\
   (* alias > /nonexistent/x : ran anyway, status 0 *)
   res_error (run_pipeline v_before_d4ac685 nf (fun p => negb (Nat.eqb p 5)) bunop_plan sh0) = false /\
   res_error (run_pipeline v0 nf (fun p => negb (Nat.eqb p 5)) bunop_plan sh0) = true.
@@ -267,7 +247,6 @@ Proof. vm_compute. repeat split; reflexivity. Qed.
 Example C08_nonvacuous :
   let pl := mkplan [ext; mks FHere [mkr F1 true (TFile 4); mkr F2 false TAmp1] KExt []; mks FNone [mkr F2 false (TFile 6); mkr F1 false TAmp2] KExt []] false in
   let sh := mkp [Some (OInh 0, false); Some (OInh 1, false); Some (OInh 2, false); None; Some (OInh 4, true)] [] in
-  Known_C08 pl = false /\
   map (fun k => (k_out k, map (obj_at (tab (k_proc k))) [0; 1; 2; 3; 4; 5])) (res_kids (run_pipeline v0 nf yes pl sh))
   = [(OExec, [Some (OInh 0); Some (OPipeW (PStage 0)); Some (OInh 2); None; None; None]);
      (OExec, [Some (OPipeR (PHere 1)); Some (OFile 4 MAppend); Some (OFile 4 MAppend); None; None; None]);
@@ -277,8 +256,6 @@ Proof. vm_compute. repeat split; reflexivity. Qed.
 Print Assumptions C08_shell.
 Print Assumptions C08_children.
 Print Assumptions C08_builtin.
-Print Assumptions C08_builtin_fix3.
-Print Assumptions C08_partial.
+Print Assumptions C08_holds.
 Print Assumptions C08_emfile.
 Print Assumptions C08_emfile_capture.
-Print Assumptions C08_refuted.
